@@ -135,7 +135,7 @@ def main():
 
 HOOK_COMMITS = ["44d0fad"]
 # a thorough tier is registered only once it has been run to completion, quiet, on the unchanged tree
-THOROUGH_VALIDATED = {"C06", "C07"}
+THOROUGH_VALIDATED = {"C01", "C06", "C07", "C18"}
 NOT_APPLICABLE = {}
 
 if __name__ == "__main__":
